@@ -71,13 +71,16 @@ class Sight:
 
         # adjust reticle scale relative to target distance and magnification
         def get_sfp_step(click_size: Angular):
-            # Don't need distances conversion cause of it's destroying there
-            return click_size.units(
-                click_size.unit_value
+            # Don't need distances conversion cause of it's destroying there.
+            # Scale the magnitude (radians), not the value in the click's display unit: the constructor re-displays the
+            # click sizes in PreferredUnits.adjustment, and for the tangent-based units (inch/100yd, cm/100m) scaling the
+            # displayed number gives a slightly different angle, i.e. a result that depended on the preferred units
+            return Angular.Radian(
+                click_size.raw_value
                 * self.scale_factor.raw_value
                 / _td.raw_value
                 * magnification
-            )
+            ) << click_size.units
 
         _td = PreferredUnits.distance(target_distance)
         _h_step = get_sfp_step(self.h_click_size)
